@@ -17,9 +17,10 @@ ID = 'C11'
 HARNESS_BIN = 'c11'
 RUN_MODULE = 'Run.C11'
 REPO_BINS = ['sccache']
-THEOREMS = ['C11_never_false_success', 'C11_eof_after_ack_falls_back', 'C11_io_error_after_ack',
-            'C11_lost_before_ack', 'C11_complete_exchange_delivered', 'C11_chunking_irrelevant',
-            'C11_connection_isolation', 'C11_only_shutdown_stops_the_server', 'C11_frame_decoder_total']
+THEOREMS = ['C11_never_false_success', 'C11_eof_after_ack_falls_back', 'C11_killed_while_answering',
+            'C11_io_error_after_ack', 'C11_lost_before_ack', 'C11_complete_exchange_delivered',
+            'C11_chunking_irrelevant', 'C11_connection_isolation', 'C11_only_shutdown_stops_the_server',
+            'C11_frame_decoder_total']
 ASSUMPTIONS = [
     'which error kind the kernel reports to the client for a lost peer (clean EOF vs ECONNRESET) is an input of the model (the `ending` of the stream), not derived: observed in the kill leg (a SIGKILLed server that had read the whole request yields EOF) — the claim is PARTIAL there',
     'bytes written by the server before it dies are delivered to the client before the end-of-stream indication (TCP ordering; Linux keeps already queued data readable after an RST)',
@@ -425,7 +426,7 @@ def gen_server(rng, tier):
     out.append([CAP, [[1, real_compile], [2, b'\xff' * 64], [1, frame(REQ_GET)]]])
     out.append([DEFAULT_CAP, [[1, be32(DEFAULT_CAP + 1)], [2, be32(0x7fffffff)], [3, frame(REQ_GET)]]])
     out.append([CAP, [[1, frame(REQ_GET)], [2, frame(REQ_GET) + b'\0\0\0'], [3, b'\xff' * 9], [1, frame(REQ_SHUT)]]])
-    n = 2500 if tier == 'thorough' else 170
+    n = 2500 if tier == 'thorough' else 400
     for _ in range(n):
         nconn = rng.range(1, 3)
         scripts = {i + 1: script(rng) for i in range(nconn)}
@@ -476,10 +477,14 @@ def shrink_server(case):
 
 def monitor_kill(case, out):
     phase, ig = case
-    if not isinstance(out, list) or len(out) != 7:
+    if not isinstance(out, list) or len(out) != 8:
         return ['the run did not complete normally: %r' % (out,)]
-    kind, why, code, ran, who, obj, restart = out
+    kind, why, code, ran, who, obj, restart, other = out
     vs = []
+    if phase != b'none':
+        # the concurrent client lost the server during its compiler run, after its acknowledgement
+        if not (isinstance(other, list) and len(other) == 6 and other[3] == 1 and other[2] == 0 and other[5] == b'ok'):
+            vs.append('a concurrent client whose server died during its compile did not deliver a local compile: %r' % (other,))
     if code == 0 and obj != b'ok':
         vs.append('exit 0 with a missing or wrong object file')
     if kind == b'error' and code == 0:
@@ -495,7 +500,7 @@ def monitor_kill(case, out):
 
 
 def gen_kill(rng, tier):
-    reps = 4 if tier == 'thorough' else 1
+    reps = 6 if tier == 'thorough' else 2
     out = []
     for _ in range(reps):
         for ph in (b'none', b'detect', b'preprocess', b'compile'):
